@@ -465,11 +465,12 @@ class IndexLevel:
             if isinstance(k, KEY_MULTIPLE_TYPES):
                 raise RuntimeError(f'slices cannot be used in a leaf selection into an IndexHierarchy; try HLoc[{key}].')
             if node.targets is not None:
-                node = node.targets[node.index._loc_to_iloc(k)]
+                # NOTE: an offset (of zero) is given so that an auto-integer index validates the label as an index within a hierarchy does
+                node = node.targets[node.index._loc_to_iloc(k, offset=0)]
                 pos += node.offset
             else: # targets is None, meaning we are at max depth
                 # k returns an integer
-                offset = node.index._loc_to_iloc(k)
+                offset = node.index._loc_to_iloc(k, offset=0)
                 assert isinstance(offset, INT_TYPES) # enforces leaf loc
                 if key_depth == key_depth_max:
                     return pos + offset
